@@ -173,11 +173,31 @@ def removeFirst (v : Bytes) : List Node → List Node
     | .leaf raw => if raw = v then rest else x :: removeFirst v rest
     | _ => x :: removeFirst v rest
 
+/-- `canonicalValue`: a map / array encoding brought to the headers `Serialize` emits; scalars and
+    anything `Parse` rejects keep their bytes -/
+def canon (raw : Bytes) : Bytes :=
+  match raw with
+  | [] => []
+  | c :: _ =>
+    if isMapCode c || isArrayCode c then
+      (match parse raw with | .ok t => serialize t | .error _ => raw)
+    else raw
+
+/-- the repaired `applyRemoveVal`: first element — scalar or container — whose canonical encoding
+    is `want` (`elementBytes`) -/
+def removeFirstC (want : Bytes) : List Node → List Node
+  | [] => []
+  | x :: rest => if canon (serialize x) = want then rest else x :: removeFirstC want rest
+
+/-- which elements REMOVE_VAL looks at (fact `removeValCompare`) -/
+def rmVal (canonical : Bool) (v : Bytes) : List Node → List Node :=
+  if canonical then removeFirstC (canon v) else removeFirst v
+
 /-- `applyRemoveVal` -/
-def hRemoveVal (v : Bytes) (parent : Node) : Hit → Except Err Node
+def hRemoveVal (rm : List Node → List Node) (parent : Node) : Hit → Except Err Node
   | .target i =>
     match getChild parent i with
-    | some (.arr xs) => .ok (setChild parent i (.arr (removeFirst v xs)))
+    | some (.arr xs) => .ok (setChild parent i (.arr (rm xs)))
     | _ => .error .type
   | _ => .ok parent
 
@@ -269,7 +289,7 @@ def applyOp (cfg : Cfg) (t : Node) (op : Op) (segs : List Seg) : Except Err Node
     | some (.index _) => walk hRemoveAt segs t
     | _ => .error .path
   | .removeVal =>
-    if op.value.isEmpty then .error .op else walk (hRemoveVal op.value) segs t
+    if op.value.isEmpty then .error .op else walk (hRemoveVal (rmVal cfg.rmvalCanon op.value)) segs t
   | .merge =>
     if op.value.isEmpty then .error .op else
     match extractTop cfg.validatesValues op.value with
